@@ -488,6 +488,44 @@ func (w *world) waitFor(cond func() bool, d time.Duration) bool {
 	}
 }
 
+// waiting for something a schedule prescribes (a request at the gates, an operation returning). Like waitFor, but
+// gives up early when nothing can happen any more unless the scheduler acts: every broadcast goroutine is parked at
+// a gate or finished, no retry sleep is pending and nothing was recorded for a while. A miss is schedule drift,
+// never a verdict, so being wrong here under extreme load only costs the rest of that schedule.
+const calmGrace = 5 * time.Second
+
+func (w *world) waitExpect(cond func() bool) bool {
+	deadline := time.Now().Add(w.wd)
+	lastN, lastChange := -1, time.Now()
+	sl := 50 * time.Microsecond
+	for {
+		w.mu.Lock()
+		ok := cond()
+		n := len(w.events) + len(w.pends)
+		calm := w.reflOK && w.settledNow()
+		for _, x := range w.sleep {
+			if time.Since(x.since) < 3*time.Second {
+				calm = false
+			}
+		}
+		w.mu.Unlock()
+		if ok {
+			return true
+		}
+		now := time.Now()
+		if n != lastN || !calm {
+			lastN, lastChange = n, now
+		}
+		if now.After(deadline) || now.Sub(lastChange) > calmGrace {
+			return false
+		}
+		time.Sleep(sl)
+		if sl < 2*time.Millisecond {
+			sl *= 2
+		}
+	}
+}
+
 func (w *world) held(from int) int {
 	c := 0
 	for _, p := range w.pends {
@@ -1058,7 +1096,7 @@ func (w *world) expectNew(from, cnt, st int, typ string) bool {
 	if cnt == 0 {
 		return true
 	}
-	ok := w.waitFor(func() bool {
+	ok := w.waitExpect(func() bool {
 		c := 0
 		for _, p := range w.pends {
 			if p.from == from && p.state == stGate && p.tick == st && p.typ == typ {
@@ -1066,7 +1104,7 @@ func (w *world) expectNew(from, cnt, st int, typ string) bool {
 			}
 		}
 		return c >= cnt
-	}, w.wd)
+	})
 	if !ok {
 		return w.driftf("expected %d %s requests (sender time #%d) of node %d at the gates", cnt, typ, st, from)
 	}
@@ -1075,7 +1113,7 @@ func (w *world) expectNew(from, cnt, st int, typ string) bool {
 
 func (w *world) find(state int, from, to int, typ string, ver, st int) *pend {
 	var found *pend
-	w.waitFor(func() bool {
+	w.waitExpect(func() bool {
 		for _, p := range w.pends {
 			if p.state == state && p.from == from && p.to == to && p.typ == typ && p.ver == ver && p.tick == st {
 				found = p
@@ -1083,19 +1121,19 @@ func (w *world) find(state int, from, to int, typ string, ver, st int) *pend {
 			}
 		}
 		return false
-	}, w.wd)
+	})
 	return found
 }
 
 func (w *world) waitOp(n *node, want ...string) bool {
-	ok := w.waitFor(func() bool {
+	ok := w.waitExpect(func() bool {
 		for _, x := range want {
 			if n.op == x {
 				return true
 			}
 		}
 		return n.op == "dead"
-	}, w.wd)
+	})
 	return ok && w.opOf(n) != "dead"
 }
 
@@ -1313,7 +1351,25 @@ func runCase(k *kase, out *bufio.Writer, wd time.Duration) (status rec) {
 	w.log(rec{"e": "end"})
 	w.mu.Unlock()
 	if w.hang == "" {
-		w.teardown()
+		// Close() waits for the broadcast goroutines of the resource. After a panic inside the library (node "dead")
+		// some of them are parked at the gates for ever: the recorded events (with the panic) must still be handed
+		// over, so the tear-down is bounded; the goroutines left behind are blocked on channels of this case only
+		wait := wd
+		w.mu.Lock()
+		if !w.quietNow() {
+			wait = 3 * time.Second
+		}
+		w.mu.Unlock()
+		done := make(chan struct{})
+		go func() { w.teardown(); close(done) }()
+		select {
+		case <-done:
+		case <-time.After(wait):
+			status["teardown"] = "blocked"
+			if wait == wd {
+				w.hang = "Close() did not return although the system was quiet"
+			}
+		}
 	}
 	w.mu.Lock()
 	w.flush(out)
